@@ -63,30 +63,36 @@ Qed.
     a consensus state of another client type than the client state (O6), *)
 Theorem C13_mixed_types_refuted :
   exists s g, m_wf_xibc T0 s = true /\ m_valid_xibc T0 s = false /\ xexport ec_head s = Ok g /\
-    validate_xibc bytes bytes (o_cs_type T0) (o_cs_valid T0) (o_cons_type T0) (o_cons_valid T0) g = false.
+    validate_xibc bytes bytes (o_cs_type T0) (o_cs_valid T0) (o_cons_type T0) (o_cons_valid T0) (o_acc_ok T0) g = false.
 Proof. exists s_mixed. eexists. repeat split; vm_compute; reflexivity. Qed.
 
 (** a zero-height consensus state of a client type without height zero (G1: TSS; here Tendermint), *)
 Theorem C13_zero_height_refuted :
   exists s g, m_wf_xibc T0 s = true /\ m_valid_xibc T0 s = false /\ xexport ec_head s = Ok g /\
-    validate_xibc bytes bytes (o_cs_type T0) (o_cs_valid T0) (o_cons_type T0) (o_cons_valid T0) g = false.
+    validate_xibc bytes bytes (o_cs_type T0) (o_cs_valid T0) (o_cons_type T0) (o_cons_valid T0) (o_acc_ok T0) g = false.
 Proof. exists s_zero. eexists. repeat split; vm_compute; reflexivity. Qed.
 
 (** a metadata entry with an empty value (OBS-2: the empty pending-validators entry of the BSC client). *)
 Theorem C13_empty_metadata_refuted :
   exists s g, m_wf_xibc T0 s = true /\ m_valid_xibc T0 s = false /\ xexport ec_head s = Ok g /\
-    validate_xibc bytes bytes (o_cs_type T0) (o_cs_valid T0) (o_cons_type T0) (o_cons_valid T0) g = false.
+    validate_xibc bytes bytes (o_cs_type T0) (o_cs_valid T0) (o_cons_type T0) (o_cons_valid T0) (o_acc_ok T0) g = false.
 Proof. exists s_empty_md. eexists. repeat split; vm_compute; reflexivity. Qed.
+
+(** a relayer the stateless relayer checks refuse (d9df21a: validation now looks at the relayers). *)
+Theorem C13_bad_relayer_refuted :
+  exists s g, m_wf_xibc T0 s = true /\ m_valid_xibc T0 s = false /\ xexport ec_head s = Ok g /\
+    validate_xibc bytes bytes (o_cs_type T0) (o_cs_valid T0) (o_cons_type T0) (o_cons_valid T0) (o_acc_ok T0) g = false.
+Proof. exists s_bad_relayer. eexists. repeat split; vm_compute; reflexivity. Qed.
 
 (** ... whereas the zero-height consensus state of the ETH client "abc-1" in [s0] is accepted (OBS-1 repaired) *)
 Theorem C13_evm_zero_height_accepted :
   exists g, aget (full_consensus_state_key (B "abc-1") (hh 0 0)) s0 <> None /\ xexport ec_head s0 = Ok g /\
-    validate_xibc bytes bytes (o_cs_type T0) (o_cs_valid T0) (o_cons_type T0) (o_cons_valid T0) g = true.
+    validate_xibc bytes bytes (o_cs_type T0) (o_cs_valid T0) (o_cons_type T0) (o_cons_valid T0) (o_acc_ok T0) g = true.
 Proof. eexists. split; [vm_compute; congruence|]. split; vm_compute; reflexivity. Qed.
 
 (** D9: were the ETH consensus state to report the BSC client type, the export of any ETH client would be rejected *)
 Theorem C13_eth_type_refuted :
   exists g, xexport ec_head s0 = Ok g /\
     validate_xibc bytes bytes (o_cs_type T0) (o_cs_valid T0)
-      (fun v => match o_cons_type T0 v with ETH => BSC | t => t end) (o_cons_valid T0) g = false.
+      (fun v => match o_cons_type T0 v with ETH => BSC | t => t end) (o_cons_valid T0) (o_acc_ok T0) g = false.
 Proof. eexists. split; vm_compute; reflexivity. Qed.
